@@ -5,10 +5,10 @@ Import ListNotations.
 From TV Require Import C42.Model C42.Spec C42.Proofs2 C42.Proofs3.
 Local Open Scope Z_scope.
 
-Lemma step_R w e sid c : G w -> fresh w e -> R w sid c -> cwf c -> R (step w e) sid (cstep sid c e).
+Lemma step_R w e sid c : G w -> fresh w e -> R w sid c -> cwf c -> R (step w e) sid (cstep sid (w_init w) c e).
 Proof.
-  intros Gw F Rw Wf. pose proof Rw as [[Hs Hk Hw Hc Hi] Hq].
-  destruct e as [p|p st| |s l|s l re|]; simpl.
+  intros Gw F Rw Wf. pose proof Rw as [[Hs Hk Hw Hc] Hq].
+  destruct e as [p|p st| |s l|s l re| | |]; simpl.
   - (* another object is created *)
     simpl in F.
     assert (N : p <> s_pid (c_sub c)).
@@ -31,6 +31,8 @@ Proof.
     + apply Nat.eqb_eq in E. subst s. apply reg_self; [apply prep_fut_good|exact Rw|exact Wf].
     + apply Nat.eqb_neq in E. apply reg_other; [apply prep_fut_good|exact Gw|exact Rw|exact E].
   - apply run_loop_R; assumption.
+  - split; [constructor|]; assumption.
+  - split; [constructor|]; assumption.
 Qed.
 
 Lemma spawn_new w p : G w -> ~ In p (map s_pid (w_subs w)) ->
@@ -43,7 +45,6 @@ Proof.
     apply a_find_in in W. destruct (g_wait w Gw p s W) as [sb [H1 H2]].
     exfalso. apply F. rewrite <- H2. apply in_map. exact (nth_error_In _ _ H1).
   - exact (calls_none _ _ (g_log w Gw) _ (Nat.le_refl _)).
-  - discriminate.
   - exact (qfilter_none _ _ (g_queue w Gw) _ (Nat.le_refl _)).
 Qed.
 
@@ -76,6 +77,35 @@ Proof.
   - destruct a; try (rewrite IH; reflexivity).
     destruct sid as [|k]; [reflexivity|]. rewrite IH. unfold count_spawns. simpl.
     destruct (after_spawn k es) as [[p r]|]; reflexivity.
+Qed.
+
+Lemma spawn_prefix_some es : forall sid p r, after_spawn sid es = Some (p, r) ->
+  es = spawn_prefix sid es ++ r /\ forall x, spawn_prefix sid (es ++ x) = spawn_prefix sid es.
+Proof.
+  induction es as [|a es IH]; intros sid p r A; simpl in A; [discriminate|].
+  destruct a as [q|q st| |s l|s l re| | |]; simpl;
+    try (destruct (IH sid p r A) as [E F]; split; [simpl; f_equal; exact E|intros x; f_equal; apply F]).
+  destruct sid as [|k].
+  - injection A as <- <-. split; [reflexivity|intros x; reflexivity].
+  - destruct (IH k p r A) as [E F]. split; [simpl; f_equal; exact E|intros x; f_equal; apply F].
+Qed.
+
+Lemma spawn_prefix_none es : forall sid, after_spawn sid es = None -> forall p,
+  Nat.eqb (count_spawns es) sid = true -> spawn_prefix sid (es ++ [ESpawn p]) = es ++ [ESpawn p].
+Proof.
+  induction es as [|a es IH]; intros sid A p C; simpl in *.
+  - destruct sid; [reflexivity|discriminate].
+  - destruct a as [q|q st| |s l|s l re| | |]; simpl; try (f_equal; apply IH; assumption).
+    destruct sid as [|k]; [discriminate|]. f_equal. apply IH; [exact A|]. unfold count_spawns in *. simpl in C. exact C.
+Qed.
+
+Lemma pfold_fst sid r : forall w c, fst (fold_left (pstep sid) r (w, c)) = fold_left step r w.
+Proof. induction r as [|e r IH]; intros w c; simpl; [reflexivity|]. apply IH. Qed.
+
+Lemma trk_snoc sid w r c e :
+  trk sid w (r ++ [e]) c = cstep sid (w_init (fold_left step r w)) (trk sid w r c) e.
+Proof.
+  unfold trk. rewrite fold_left_app. simpl. rewrite pfold_fst. reflexivity.
 Qed.
 
 Lemma wf_snoc es e : wf (es ++ [e]) = true ->
@@ -118,15 +148,22 @@ Proof.
         set (w1 := mkW (w_kern (run es)) (w_subs (run es)) (w_waiting (run es)) [] (w_init (run es)) (w_log (run es))).
         assert (G1 : G w1) by (destruct Gw; constructor; simpl; auto; intros x []).
         destruct (fold_items_G (w_queue (run es)) w1 G1 (g_queue _ Gw)) as [_ [_ C]]. exact C.
+      * reflexivity.
+      * reflexivity.
     + intros sid. specialize (Tw sid). unfold track in *. rewrite after_spawn_snoc.
       destruct (after_spawn sid es) as [[p r]|] eqn:A.
-      * rewrite fold_left_app. simpl. apply step_R; try assumption. apply fold_cwf, cinit_cwf.
+      * destruct (spawn_prefix_some es sid p r A) as [Ees Fpre]. rewrite Fpre, trk_snoc.
+        assert (Rn : fold_left step r (run (spawn_prefix sid es)) = run es).
+        { assert (X : run (spawn_prefix sid es ++ r) = fold_left step r (run (spawn_prefix sid es))) by (unfold run; apply fold_left_app).
+          rewrite <- Ees in X. symmetry. exact X. }
+        rewrite Rn. apply step_R; try assumption. apply fold_cwf, cinit_cwf.
       * assert (CL : count_spawns es = length (w_subs (run es))).
         { rewrite count_spawns_pids, <- Pw, map_length. reflexivity. }
-        destruct e as [p|p st| |s l|s l re|];
+        destruct e as [p|p st| |s l|s l re| | |];
           try (rewrite step_len; simpl; lia).
-        rewrite CL. destruct (Nat.eqb (length (w_subs (run es))) sid) eqn:E.
-        -- apply Nat.eqb_eq in E. subst sid. simpl fold_left. apply spawn_new; [exact Gw|].
+        destruct (Nat.eqb (count_spawns es) sid) eqn:E.
+        -- rewrite (spawn_prefix_none es sid A p E). unfold trk. cbn [fold_left snd].
+           apply Nat.eqb_eq in E. rewrite CL in E. subst sid. apply spawn_new; [exact Gw|].
            simpl in Fr. exact Fr.
         -- apply Nat.eqb_neq in E. rewrite step_len. simpl. lia.
 Qed.
